@@ -63,6 +63,12 @@ Unit(
         "remove_models_from_repositories": Ext(
             "remove_models_from_repositories", raises=None, returns="none",
             note="removes the given models from every repository that may hold them (scoping/__init__.py)"),
+        "_abandon_model_construction": Ext(
+            "abandon_model_construction", raises=None, returns="none", protect=MODELS_PROTECT,
+            note="failure path: drops the per-object storage of one model's user-class instances and restores the "
+                 "user classes for a model still in construction (unit model._abandon_model_construction in "
+                 "contracts/c14.py; that it raises nothing is assumed: dict.pop with a default, a restore that "
+                 "only deletes what it finds)"),
     },
     ext_protect=MODELS_PROTECT,
     locals={"resolved_count": "int", "unresolved_count": "int"},
@@ -81,6 +87,8 @@ Unit(
                              inv=[f"forall(lambda j: implies(0 <= j and j < _i, {ENDED}))"]),
         "for:models#5": Loop(modifies=["*"], protect=MODELS_PROTECT + ["ATTR:_tx_reference_resolver"],
                              inv=[ALL_ENDED]),
+        # the failure handler: every model of the load is abandoned (user classes given back) before the removal
+        "for:models#6": Loop(modifies=["*"], protect=MODELS_PROTECT, inv=[]),
     },
     ensures=[
         ("C09-C13-success-only-when-nothing-is-left-postponed",
